@@ -126,6 +126,8 @@ def uterm(v):
             v.ghost["_uterm"] = t
             v.ghost["_uterm_of"] = v._term
         return t
+    if isinstance(v, SymDict) and v.ghost.get("ident") is not None:
+        return _uf("dataset_of", 1)(v.ghost["ident"])          # the grid's own dataset, as an abstract value
     if isinstance(v, Small):
         fl = v.flat()
         return _uf("small%d" % len(fl), len(fl))(*[uterm(x) for x in fl]) if fl else z3.Const("py:emptyarray", USORT)
